@@ -100,12 +100,28 @@ def run(ctx):
                     log.append(("zero", cond))
                     k = sum(1 for c in log if c[0] == "zero") - 2       # index of the iteration whose Av norm is tested
                     return stop == "breakdown" and k == iters - 1
+                if op in ("lt", "le") and "tol" in set(P(lhs).atoms()) and "tol" not in set(P(rhs).atoms()) and not P(rhs).is_const():
+                    # lower half of a chained two-sided test  -c*tol < change (< c*tol): answered "yes", the upper half decides
+                    log.append(("stag-lower", P(rhs)))
+                    return True
                 if op == "lt" and any(a == "tol" for a in cond_atoms(cond)):
                     kind = "conv" if P(rhs).same(TOL) else "stag"
                     log.append((kind, cond))
                     k = sum(1 for c in log if c[0] == kind) - 1
                     if kind == "conv":
                         return stop == "converged" and k == iters - 1
+                    # the stagnation test is two-sided: |d_k - d_{k-1}| below the threshold (a one-sided "no improvement" reading
+                    # stops as soon as the step length GROWS, e.g. while the iterate flips sign for a negative dominant eigenvalue)
+                    sa_ = P(lhs).as_single_atom()
+                    two_sided = (sa_ is not None and isinstance(sa_[1], tuple) and sa_[1] and sa_[1][0] in ("abs", "max")) or any(
+                        c_[0] == "stag-lower" and c_[1].same(P(lhs)) for c_ in log)
+                    plain = "tol" not in {a for a in P(lhs).atoms()} and "tol" in {a for a in P(rhs).atoms()}   # <change> < c*tol
+                    if plain and not two_sided and not P(lhs).is_const() and ("stag-sided",) not in log:
+                        log.append(("stag-sided",))
+                        ctx.ob("C19.D1.stagnation-test", f"power_iteration: stagnation test at {interp.where(node)}", False,
+                               f"the stagnation test compares {short(lhs)} (signed) with the threshold instead of the absolute change of "
+                               f"the step length", where=f_pi.where, construct="power_iteration: one-sided stagnation test",
+                               loc=interp.where(node))
                     # the stagnation test is undecidable only from the second iteration on (first: |x - inf|)
                     return stop == "stagnation" and k == iters - 2
                 return False
